@@ -6,7 +6,9 @@ CONSTANTS
   ConstT = {3}
   ConstR = {2}
   MaxCtx = 2
+  KeptOnly <- NoVars
   ElimLists <- Lists1
   SignAny = FALSE
+  NoAccumulation = FALSE
 CONSTRAINT Emit
 CHECK_DEADLOCK FALSE
